@@ -15,6 +15,7 @@ from pbt.props import _chi_ref as ref
 ALPHA0 = 0.03  # [rad] reference angle at which one term contributes at most MAX_RAD
 MAX_RAD = 20.0
 ORDERS = ref.all_orders()
+SYMBOL_TO_ALIAS = {v: k for k, v in ref.ALIASES.items()}  # C10 is special: defocus = -C10
 
 
 def coeff_cap(n: int, energy: float, max_rad: float = MAX_RAD, alpha0: float = ALPHA0) -> float:
